@@ -5,6 +5,58 @@ from ..flow import ev_call, ev_return, ev_assign
 LOSSY = {"atoi", "atol", "atoll", "sscanf"}
 
 
+def uri_cache_coherence(ck, facts, rule="U5.canonical-cache-coherent"):
+    """every AnyP::Uri member function that changes a component the canonical forms are built from clears the cached forms (touch()) afterwards"""
+    from ..flow import ev_exit
+    touch = facts.fn("AnyP::Uri::touch")
+    cached = set()
+    for b in touch.blocks.values():
+        for ev in b["ev"]:
+            if ev.get("e") == "call":
+                x = E.strip(ev["x"])
+                o = E.strip(x.get("o") or {})
+                if o.get("k") == "mem" and x.get("f", "").split("::")[-1] == "clear":
+                    cached.add(o["m"])
+    ck.need(len(cached) >= 3, "C30: AnyP::Uri::touch() no longer clears the cached canonical forms: %s" % sorted(cached))
+
+    def component_write(ev):
+        if ev.get("e") == "asg":
+            l = E.strip(ev.get("lhs"))
+            return l.get("k") == "mem" and l["m"].startswith("AnyP::Uri::") and l["m"] not in cached and E.strip(l.get("b") or {}).get("k") == "this"
+        if ev.get("e") == "call":
+            x = E.strip(ev["x"])
+            o = E.strip(x.get("o") or {})
+            return (o.get("k") == "mem" and o["m"].startswith("AnyP::Uri::") and o["m"] not in cached and E.strip(o.get("b") or {}).get("k") == "this"
+                    and not x.get("cm") and x.get("f", "").split("::")[-1] not in ("operator->", "operator*"))
+        return False
+
+    is_touch = lambda ev: ev.get("e") == "call" and E.strip(ev["x"]).get("f") == "AnyP::Uri::touch"
+    nfn = 0
+    for f in facts.all_fns(lambda f: f.name.startswith("AnyP::Uri::") and f.name.count("::") == 2):
+        short = f.name.split("::")[-1]
+        if short in ("Uri", "~Uri", "touch", "operator="):
+            continue
+        if not any(component_write(ev) for b in f.blocks.values() for ev in b["ev"]):
+            continue
+        nfn += 1
+
+        def track(ev, env, fs):
+            if component_write(ev):
+                env["#wrote"] = 1
+                env.pop("#touched", None)
+            elif is_touch(ev):
+                env["#touched"] = 1
+        fl = ck.flow(f, on_event=track)
+        bad = [st for st in fl.find(ev_exit(("ret", "fall"))) if st.env.get("#wrote") == 1 and st.env.get("#touched") != 1]
+        if not bad:
+            ck.ok(rule, f.where(), "%s: every path that changes a URI component ends with touch()" % f.name)
+        else:
+            ck.violation(rule, "%s|%s|component-changed-without-touch" % (rule.split(".")[0], f.name), bad[0].where(),
+                         "%s changes a URI component but can return without touch(): absolute()/authority()/absolutePath() keep returning the forms cached before the "
+                         "change (e.g. the URL purged for a relative Location is still the request URL)" % f.name, fl.witness(bad[0]))
+    ck.need(nfn >= 1, "C30: no AnyP::Uri member function changing a URI component was found in the analysed unit")
+
+
 def run(ck):
     facts = ck.facts(["src/anyp/Uri.cc", "src/base/CharacterSet.cc"])
     parse = facts.fn("AnyP::Uri::parse")
@@ -63,4 +115,8 @@ def run(ck):
                      "the canonical form no longer re-parses to the same path" % show(missing))
     extra = kept - legal - frozenset(range(0x80, 0x100))
     ck.need(not (kept & frozenset(range(0, 0x21))), "C30: absolutePath() would leave control bytes or space verbatim: %s" % show(kept & frozenset(range(0, 0x21))))
+    ck.rule("U5 canonical-form cache coherence: every AnyP::Uri member function (constructors and assignment excepted) that writes a component of the URI "
+            "(scheme, user-info, host, port, path) calls touch() after its last such write on every path, so that absolute()/authority()/absolutePath() never return a "
+            "form cached before the change")
+    uri_cache_coherence(ck, facts)
     ck.assume("canonical-form idempotence and host case folding are not decided")
